@@ -2,10 +2,11 @@
 Require Extraction.
 Require Import ExtrOcamlBasic.
 From Coq Require Import ZArith NArith.
-From Astisub Require Import Kit.Base Kit.Str Kit.Float64 Kit.Scan Kit.Html Model.Ops Model.Dur Model.Lin Model.Srt Model.Files Model.Vtt Model.Conv Model.ConvOps Model.Plain Model.PlainOps Model.Cli Model.TtxRow Model.Ttx Model.TtxSpec Model.Ssa Kit.Float64x Kit.Xml Model.Ttml Kit.XmlParse Kit.Utf8 Model.Stl Model.PlainSsa Model.SrtC Model.VttC Model.PlainStl Kit.IOW Model.StlIO Kit.Chk Model.StlC Model.PlainTtml Model.TtmlOpt Model.PlainTtx Kit.XmlParse2 Proofs.TtmlRender Proofs.TtmlRenderEx Model.TtxHam Kit.XmlEsc Model.TtmlGo Model.ConvTtml Model.TtmlC Model.SsaC Model.ConvStl Model.ConvStlVtt Model.ConvStlTtml Model.ConvTtx Model.TtxFull.
+From Astisub Require Import Kit.Base Kit.Str Kit.Float64 Kit.Scan Kit.Html Model.Ops Model.Dur Model.Lin Model.Srt Model.Files Model.Vtt Model.Conv Model.ConvOps Model.Plain Model.PlainOps Model.Cli Model.TtxRow Model.Ttx Model.TtxSpec Model.Ssa Kit.Float64x Kit.Xml Model.Ttml Kit.XmlParse Kit.Utf8 Model.Stl Model.PlainSsa Model.SrtC Model.VttC Model.PlainStl Kit.IOW Model.StlIO Kit.Chk Model.StlC Model.PlainTtml Model.TtmlOpt Model.PlainTtx Kit.XmlParse2 Proofs.TtmlRender Proofs.TtmlRenderEx Model.TtxHam Kit.XmlEsc Model.TtmlGo Model.ConvTtml Model.TtmlC Model.SsaC Model.ConvStl Model.ConvStlVtt Model.ConvStlTtml Model.ConvTtx Model.TtxFull Kit.Int64 Model.Ops64.
 Extraction "model.ml"
   Z.add Z.mul Z.opp Z.div Z.modulo Z.of_N Z.to_N N.add N.mul
   order merge add_dur force_duration fragment unfragment optimize remove_styling item_text
+  add_dur64 force_duration64 fragment64 linear_correction64
   format_duration parse_duration parse_srt format_stl format_stl_bytes parse_stl parse_stl_bytes
   trim_space split_byte atoi itoa_z fields
   lin linear_correction frac_float
